@@ -103,7 +103,7 @@ def parseReq : Str → Option (Option Kind)
   | ['-'] => some none
   | s => (parseKind s).map some
 
-inductive Tok | op (o : Op) | dump
+inductive Tok | op (o : Op) | dump | unsetSub (n i : Str)
 
 def parseTok (t : Str) : Option Tok :=
   match splitC ':' t with
@@ -112,6 +112,7 @@ def parseTok (t : Str) : Option Tok :=
   | [['p', 'o'], k] => (parseKind k).map (.op ∘ .pop)
   | [['u', 'n'], n] => some (.op (.unset (unesc n)))
   | [['u', 'i'], n, i] => some (.op (.unsetIndex (unesc n) (unesc i)))
+  | [['u', 'j'], n, i] => some (.unsetSub (unesc n) (unesc i))
   | [['u', 'a'], n, l, u, p, k] => do
       let l ← parseLit l; let u ← parseUpd u; let p ← parsePol p; let k ← parseKind k
       pure (.op (.updateOrAdd (unesc n) l u p k))
@@ -187,27 +188,16 @@ def dump (ok : Bool) (e : Env) : Str :=
   "S=".toList ++ [if ok then '1' else '0'] ++ [' '] ++
     joinWith ['/'] (e.scopes.reverse.map showScope) ++ [' '] ++ showView e ++ [' '] ++ showChild e
 
-/-- a failed prefix assignment: `execute_command` returns the error, its `ScopeGuard` pops the command
-scope, and the command itself (builtin body, function body, …) does not run: skip to the matching pop -/
-def skipCmd : Nat → List Tok → List Tok
-  | _, [] => []
-  | d, .op (.push _) :: r => skipCmd (d + 1) r
-  | d, .op (.pushTemp _) :: r => skipCmd (d + 1) r
-  | 0, .op (.pop _) :: r => r
-  | d + 1, .op (.pop _) :: r => skipCmd d r
-  | d, _ :: r => skipCmd d r
-
-def runToksF : Nat → Env → Bool → List Tok → List Str
-  | 0, _, _, _ => []
-  | _, _, _, [] => []
-  | f + 1, e, ok, .dump :: r => dump ok e :: runToksF f e ok r
-  | f + 1, e, _, .op (.pushTemp items) :: r =>
-    let (e', ok') := stepR e (.pushTemp items)
-    if ok' then runToksF f e' true r
-    else runToksF f (e'.pop .command).1 false (skipCmd 0 r)
-  | f + 1, e, _, .op o :: r => let (e', ok') := stepR e o; runToksF f e' ok' r
-
-def runToks (e : Env) (ok : Bool) (l : List Tok) : List Str := runToksF (l.length + 1) e ok l
+def runToks : Env → Bool → List Tok → List Str
+  | _, _, [] => []
+  | e, ok, .dump :: r => dump ok e :: runToks e ok r
+  | e, _, .op o :: r => let (e', ok') := stepR e o; runToks e' ok' r
+  | e, _, .unsetSub n i :: r =>
+    -- the `unset` builtin (unset.rs `unset_array_index`) evaluates the subscript arithmetically unless the
+    -- variable is an associative array; the subscripts used are literals or names of unset variables
+    let assoc := match e.get n with | some (_, v) => v.value.isAssoc | none => false
+    let i' := if assoc then i else intToStr (parseI64 i)
+    let (e', ok') := stepR e (.unsetIndex n i'); runToks e' ok' r
 
 def handle (toks : List Str) : Str :=
   match toks.mapM parseTok with
